@@ -1,11 +1,12 @@
 """C13 -- pooled containers carry no state between runs; sealed executables are immutable.
 
 Reset half:  Reset.tla is model-checked (all histories of runs and Resets over a nested mount
-  table), Reset_Gen lets TLC enumerate every plant set / history shape / configuration, the
-  orchestrator composes histories from them (covering family + seeded sample), `contfs reset`
-  replays them on real containers (the static probe plants, the host lists through
+  table), Reset_Gen lets TLC enumerate every kind set / assignment to mounts / history shape /
+  configuration, the orchestrator composes histories from them (covering family + seeded sample),
+  `contfs reset` replays them on real containers (the static probe plants, the host lists through
   /proc/<init>/root, a later program lists from inside) and Reset_Trace validates every recorded
-  history as a behaviour of the spec.
+  history as a behaviour of the spec.  A second pass replays chain-planting histories with the
+  driver (and so the container init) under RLIMIT_NOFILE 4096.
 Memfd half:  Memfd.tla (kernel sealing semantics + the Immutable property) is model-checked,
   Memfd_Gen enumerates size x pattern x reader x attack order, `contfs memfd` runs
   memfd.DupToMemfd on real data and attacks the result from the harness and from a program
@@ -13,21 +14,52 @@ Memfd half:  Memfd.tla (kernel sealing semantics + the Immutable property) is mo
 """
 import json
 import os
+import shutil
+import threading
+import time
 
 import vlib
 
-KINDS_QUICK = ["deep", "deepshort", "mode000", "dot", "symout", "fifo", "sock", "hardlink", "many",
-               "owned", "openunl", "nested", "oddname"]
+KINDS = ["deep", "deepshort", "abyss", "mode000", "dot", "symout", "fifo", "sock", "hardlink", "many",
+         "owned", "openunl", "nested", "oddname"]
 
 
-def gen_cfg(ctx):
+def par(jobs):
+    """run independent steps (TLC runs, the Go build, drivers) concurrently; first exception wins"""
+    res, errs, ths = {}, [], []
+
+    def wrap(name, fn):
+        try:
+            res[name] = fn()
+        except BaseException as e:   # noqa
+            errs.append(e)
+    for name, fn in jobs:
+        th = threading.Thread(target=wrap, args=(name, fn))
+        th.start()
+        ths.append(th)
+        time.sleep(0.4)              # ctx.tlc numbers its scratch directories at call time
+    for th in ths:
+        th.join()
+    if errs:
+        raise errs[0]
+    return res
+
+
+def count(ctx, *rs):
+    for r in rs:
+        ctx.states += r.distinct
+        ctx.transitions += r.generated
+
+
+def gen_cfg():
     return """CONSTANTS GenKinds = {%s}
   MaxPlant = 3
 INIT Init
 NEXT Next
-""" % ", ".join('"%s"' % k for k in KINDS_QUICK)
+""" % ", ".join('"%s"' % k for k in KINDS)
 
 
+# ------------------------------------------------------------------------------------ Reset half
 def compose_histories(ctx, kindsets, assigns, shapes, configs, total):
     """history = configuration x shape x per run (TLC-enumerated kind set, TLC-enumerated assignment of
     its kinds to mounts).  First a covering family (every kind x every mount x every configuration,
@@ -57,7 +89,7 @@ def compose_histories(ctx, kindsets, assigns, shapes, configs, total):
         it = iter(specs)
         for s in shape:
             ev.append({"e": "run", "plants": next(it)} if s == "run" else {"e": s})
-        hist.append({"id": len(hist) + 1,
+        hist.append({"id": len(hist) + 1, "pass": "main",
                      "cfg": {"name": cfg["name"], "cred": cfg["cred"], "mounts": cfg["mounts"]}, "ev": ev})
 
     for cfg in configs:
@@ -92,22 +124,65 @@ def compose_histories(ctx, kindsets, assigns, shapes, configs, total):
     return hist, cover
 
 
-def hist_key(h, tr, at):
-    plants = sorted({"%s@%s" % (p["k"], h["cfg"]["mounts"][p["m"] - 1]) for e in h["ev"] if e["e"] == "run" for p in e["plants"]})
-    by = tr["ev"][at].get("by", "") if at < len(tr["ev"]) else ""
-    return "reset:%s:%s:%s" % (h["cfg"]["name"], by, ",".join(plants))
+def lownofile_histories(ctx, kindsets, assigns, configs):
+    """plant {fifo, abyss} (in that order: the chain is the newest entry of the mount) in the mounts of the
+    flat configurations; members of the TLC-enumerated kind sets / assignments"""
+    if not any(sorted(k["kinds"]) == ["abyss", "fifo"] for k in kindsets):
+        raise vlib.Inconclusive("kind set {abyss, fifo} not enumerated")
+    hist = []
+    for cfg in sorted(configs, key=lambda c: c["name"]):
+        if any(cfg["parent"]):
+            continue
+        nm = len(cfg["mounts"])
+        for m in range(1, nm + 1):
+            if ctx.quick() and m != 1 + (ctx.seed + len(cfg["name"])) % nm:
+                continue
+            assert any(a["nm"] == nm and a["f"] == [m, m] for a in assigns)
+            hist.append({"id": len(hist) + 1, "pass": "lownofile",
+                         "cfg": {"name": cfg["name"], "cred": cfg["cred"], "mounts": cfg["mounts"]},
+                         "ev": [{"e": "run", "plants": [{"k": "fifo", "m": m}, {"k": "abyss", "m": m}]},
+                                {"e": "reset"}, {"e": "list"}]})
+    return hist
+
+
+def replay_histories(ctx, hist, probe_dir, label, wrapper):
+    hp, op = ctx.path("reset_hist_%s.ndjson" % label), ctx.path("reset_obs_%s.ndjson" % label)
+    with open(hp, "w") as fh:
+        for h in hist:
+            fh.write(json.dumps(h) + "\n")
+    exe = ctx.build_vdrive("contfs")
+    rc, o = ctx.sh((wrapper or []) + [exe, "reset", hp, op, probe_dir, ctx.mkdir("envs-" + label), "4"],
+                   timeout=1500, cwd=ctx.scratch)
+    if rc != 0:
+        raise vlib.Inconclusive("driver contfs reset (%s) exited %d:\n%s" % (label, rc, o[-4000:]))
+    traces = ctx.read_ndjson(op)
+    if len(traces) != len(hist):
+        raise vlib.Inconclusive("driver returned %d histories for %d (%s)" % (len(traces), len(hist), label))
+    for tr in traces:
+        if tr.get("setup"):
+            raise vlib.Inconclusive("history %d (%s) could not be run: %s" % (tr["id"], label, tr["setup"]))
+    ctx.log("reset/%s: %d histories replayed on real containers" % (label, len(hist)))
+    return traces
+
+
+def left_behind(h, e, configs):
+    """mounts whose listing shows more than the mount points nested in them (structure of the configuration)"""
+    cfg = [c for c in configs if c["name"] == h["cfg"]["name"]][0]
+    out = []
+    for i, l in enumerate(e["ls"]):
+        kids = sum(1 for p in cfg["parent"] if p == i + 1)
+        if l["n"] > kids:
+            names = [n for n in l["names"] if n not in cfg["base"]] if l["names"] else ["%d entries" % l["n"]]
+            out.append((h["cfg"]["mounts"][i], names))
+    return out
 
 
 def classify_reject(tr, at):
     """structural classification of the first event the spec did not accept (no expectation here):
     a listing with no program run since the last Reset shows what Reset left behind."""
-    if tr.get("setup"):
-        return "setup"
     if at >= len(tr["ev"]):
         return "setup"
     e = tr["ev"][at]
-    if e["e"] == "run":
-        return "setup"
     if e["e"] == "list":
         j = at - 1
         while j >= 0 and tr["ev"][j]["e"] == "list":
@@ -118,78 +193,46 @@ def classify_reject(tr, at):
     return "setup"
 
 
-def reset_half(ctx, probe_dir):
-    # 1. design level
-    r = ctx.tlc("Reset", workers=4, coverage=ctx.tier == "thorough", timeout=300)
-    ctx.tlc_ok("Reset MC", r)
-    ctx.cov["reset_mc_distinct"] = r.distinct
-    ctx.log("reset: MC done (%d distinct states)" % r.distinct)
-    # 2. TLC enumerates the building blocks
-    g = ctx.tlc("Reset_Gen", cfg=gen_cfg(ctx), timeout=600, count=False, workers=2)
-    ctx.tlc_ok("Reset_Gen", g)
-    rd = lambda n: ctx.read_ndjson(os.path.join(g.dir, n))
-    kindsets, assigns, shapes, configs = rd("kindsets.ndjson"), rd("assigns.ndjson"), rd("shapes.ndjson"), rd("configs.ndjson")
-    if not kindsets or not assigns or not shapes or not configs:
-        raise vlib.Inconclusive("Reset_Gen produced no cases")
-    hist, cover = compose_histories(ctx, kindsets, assigns, shapes, configs, ctx.pick(44, 400))
-    ctx.log("reset: %d kind sets x %d assignments enumerated, %d histories (%d covering)" % (len(kindsets), len(assigns), len(hist), cover))
-    hp, op = ctx.path("reset_hist.ndjson"), ctx.path("reset_obs.ndjson")
-    with open(hp, "w") as fh:
-        for h in hist:
-            fh.write(json.dumps(h) + "\n")
-    ctx.vdrive("contfs", ["reset", hp, op, probe_dir, ctx.mkdir("envs"), "4"], timeout=1500)
-    ctx.log("reset: histories replayed")
-    traces = ctx.read_ndjson(op)
-    if len(traces) != len(hist):
-        raise vlib.Inconclusive("driver returned %d histories for %d" % (len(traces), len(hist)))
-    judge_histories(ctx, hist, traces, "")
-    return len(traces)
-
-
-def judge_histories(ctx, hist, traces, prefix):
-    for tr in traces:
-        if tr.get("setup"):
-            raise vlib.Inconclusive("history %d could not be run: %s" % (tr["id"], tr["setup"]))
-    t = ctx.tlc("Reset_Trace", files={"traces.ndjson": traces}, timeout=900)
-    ctx.tlc_ok("Reset_Trace", t)
+def judge_histories(ctx, hist, traces, t, configs):
     bad = ctx.read_ndjson(os.path.join(t.dir, "bad.ndjson"))
     drift = 0
     for b in bad:
         tr, h = traces[b["t"] - 1], hist[b["t"] - 1]
+        if b["j"] == "setup":
+            raise vlib.Inconclusive("history %d (%s): a listing could not be taken: %s" % (tr["id"], h["pass"], json.dumps(tr["ev"])[:800]))
         if b["j"] == "drift":
             drift += 1
             if drift <= 3:
-                ctx.note("DRIFT Reset return value differs from the implementation-layer model: %s" % json.dumps(
-                    [e for e in tr["ev"] if e["e"] == "reset"])[:300])
+                ctx.note("DRIFT Reset return value differs from the implementation-layer model (cfg %s): %s" % (
+                    tr["cfg"], json.dumps([e for e in tr["ev"] if e["e"] == "reset"])[:300]))
             continue
         at = b["matched"]
         cls = classify_reject(tr, at)
         if cls == "leak":
             e = tr["ev"][at]
-            left = {h["cfg"]["mounts"][i]: l for i, l in enumerate(e["ls"]) if l["n"] != 0}
-            ctx.violation(prefix + hist_key(h, tr, at),
-                          "after Reset the %s still sees entries: %s" % (e["by"], json.dumps(left)[:400]),
-                          {"history": h, "trace": tr, "rejected_event": at + 1})
+            left = left_behind(h, e, configs)
+            if h["pass"] == "lownofile":     # key names exactly what stayed, then where
+                key = "reset:lownofile:left=%s:%s:%s:%s" % (",".join(sorted(n for _, ns in left for n in ns)), h["cfg"]["name"],
+                                                            e["by"], ",".join(m for m, _ in left))
+            else:
+                key = "reset:%s:left=%s:%s" % (h["cfg"]["name"], ",".join(m for m, _ in left), e["by"])
+            ctx.violation(key, "after Reset the %s still sees entries of an earlier program: %s" % (
+                              {"host": "host (through /proc/<init>/root)", "prog": "next program"}[e["by"]], json.dumps(left)[:400]),
+                          {"pass": h["pass"], "history": h, "trace": tr, "rejected_event": at + 1})
         elif cls == "truth":
-            raise vlib.Inconclusive("model disagrees with the kernel about what was planted (history %d event %d): %s" % (
-                tr["id"], at + 1, json.dumps(tr["ev"][at])[:600]))
+            raise vlib.Inconclusive("model disagrees with the kernel about what was planted (history %d/%s event %d): %s" % (
+                tr["id"], h["pass"], at + 1, json.dumps(tr["ev"][at])[:600]))
         else:
-            raise vlib.Inconclusive("history %d: event %d could not be set up: %s" % (tr["id"], at + 1, json.dumps(tr["ev"][at])[:600]))
+            raise vlib.Inconclusive("history %d/%s: event %d could not be set up: %s" % (
+                tr["id"], h["pass"], at + 1, json.dumps(tr["ev"][at] if at < len(tr["ev"]) else None)[:600]))
     ctx.cov["drift"] = ctx.cov.get("drift", 0) + drift
-    ctx.cov["reset_errors_returned"] = ctx.cov.get("reset_errors_returned", 0) + sum(
-        1 for tr in traces for e in tr["ev"] if e["e"] == "reset" and not e["ok"])
+    ctx.cov["reset_histories"] = len(traces)
+    ctx.cov["reset_errors_returned"] = sum(1 for tr in traces for e in tr["ev"] if e["e"] == "reset" and not e["ok"])
     ctx.sample(traces[len(traces) // 2])
 
 
-def memfd_half(ctx, probe_dir):
-    r = ctx.tlc("Memfd", workers=2, timeout=300)
-    ctx.tlc_ok("Memfd MC (Immutable under all attempt sequences; every seal needed)", r)
-    ctx.log("reset half done; memfd MC done")
-    g = ctx.tlc("Memfd_Gen", timeout=300, count=False)
-    ctx.tlc_ok("Memfd_Gen", g)
-    allc = ctx.read_ndjson(os.path.join(g.dir, "memcases.ndjson"))
-    if not allc:
-        raise vlib.Inconclusive("Memfd_Gen produced no cases")
+# ------------------------------------------------------------------------------------ memfd half
+def memfd_cases(ctx, allc):
     groups = {}
     for c in allc:
         groups.setdefault((c["size"], c["pat"]) if ctx.quick() else (c["size"], c["pat"], c["reader"]), []).append(c)
@@ -200,23 +243,32 @@ def memfd_half(ctx, probe_dir):
         cases += ctx.rng.sample(g_, min(n, len(g_)))
     for i, c in enumerate(cases):
         c["id"] = i + 1
+    return cases
+
+
+def replay_memfd(ctx, cases, probe_dir):
     cp, op = ctx.path("memcases.ndjson"), ctx.path("memobs.ndjson")
     with open(cp, "w") as fh:
         for c in cases:
             fh.write(json.dumps(c) + "\n")
-    ctx.vdrive("contfs", ["memfd", cp, op, probe_dir, ctx.mkdir("envs")], timeout=1500)
-    ctx.log("memfd: %d cases run" % len(cases))
+    ctx.vdrive("contfs", ["memfd", cp, op, probe_dir, ctx.mkdir("envs-memfd")], timeout=1500)
     traces = ctx.read_ndjson(op)
     if len(traces) != len(cases):
         raise vlib.Inconclusive("driver returned %d memfd cases for %d" % (len(traces), len(cases)))
     for tr in traces:
         if tr.get("setup"):
             raise vlib.Inconclusive("memfd case %d could not be run: %s" % (tr["id"], tr["setup"]))
-    t = ctx.tlc("Memfd_Trace", files={"memtraces.ndjson": traces}, timeout=900)
-    ctx.tlc_ok("Memfd_Trace", t)
+    ctx.log("memfd: %d cases run on the real DupToMemfd" % len(cases))
+    return traces
+
+
+def judge_memfd(ctx, traces, t):
     drift = 0
     for b in ctx.read_ndjson(os.path.join(t.dir, "bad.ndjson")):
         tr = traces[b["t"] - 1]
+        if b["j"] == "setup":
+            raise vlib.Inconclusive("memfd case %d: the program executed from the memfd did not complete: %s" % (
+                tr["id"], json.dumps([e for e in tr["ev"] if e["e"] == "exec"])[:800]))
         if b["j"] == "drift":
             drift += 1
             if drift <= 3:
@@ -225,8 +277,8 @@ def memfd_half(ctx, probe_dir):
             continue
         at = b["matched"]
         e = tr["ev"][at] if at < len(tr["ev"]) else {}
-        if e.get("e") == "dup" or (e.get("e") == "exec" and e.get("status") != "Normal"):
-            raise vlib.Inconclusive("memfd case %d: event %d could not be set up: %s" % (tr["id"], at + 1, json.dumps(e)[:500]))
+        if e.get("e") == "dup":
+            raise vlib.Inconclusive("memfd case %d: DupToMemfd failed / wrong input: %s" % (tr["id"], json.dumps(e)[:500]))
         what = {"handover": "the memfd handed out by DupToMemfd does not hold exactly the supplied bytes or is not positioned at offset 0",
                 "op": "a mutation attempt by the holder of the descriptor changed the sealed file",
                 "exec": "the program executed from the memfd changed it"}.get(e.get("e"), "rejected")
@@ -235,14 +287,13 @@ def memfd_half(ctx, probe_dir):
         ctx.violation(key, "%s: %s" % (what, json.dumps(e)[:500]), {"case": tr, "rejected_event": at + 1})
     ctx.cov["drift"] = ctx.cov.get("drift", 0) + drift
     ctx.cov["memfd_cases"] = len(traces)
-    ctx.cov["memfd_attempts"] = sum(len(e.get("ops", [])) if e["e"] == "exec" else 1 for tr in traces for e in tr["ev"] if e["e"] in ("op", "exec"))
+    ctx.cov["memfd_attempts"] = sum(len(e.get("ops", [])) if e["e"] == "exec" else 1
+                                    for tr in traces for e in tr["ev"] if e["e"] in ("op", "exec"))
     ctx.sample({k: v for k, v in traces[0].items() if k != "ev"} | {"ev": traces[0]["ev"][:4]})
-    return len(traces)
 
 
 def stage_probe(ctx):
     """the probe lives alone in a directory that is bind-mounted read-only into the containers"""
-    import shutil
     probe = ctx.probe("contfs")
     d = ctx.mkdir("probe")
     shutil.copy(probe, os.path.join(d, "contfs"))
@@ -256,18 +307,70 @@ def stage_probe(ctx):
 
 def run(ctx):
     probe_dir = stage_probe(ctx)
-    ctx.build_vdrive("contfs")
     only = os.environ.get("C13_ONLY", "")          # development / selftest switch: "reset" | "memfd"
-    n = reset_half(ctx, probe_dir) if only != "memfd" else 0
-    m = memfd_half(ctx, probe_dir) if only != "reset" else 0
-    ctx.traces = n + m
+    do_reset, do_memfd = only != "memfd", only != "reset"
+    # A. design-level model checking, case generation and the build, concurrently
+    jobs = [("build", lambda: ctx.build_vdrive("contfs"))]
+    if do_reset:
+        jobs += [("reset_mc", lambda: ctx.tlc("Reset", workers=2, coverage=ctx.tier == "thorough", timeout=600, count=False)),
+                 ("reset_gen", lambda: ctx.tlc("Reset_Gen", cfg=gen_cfg(), timeout=600, count=False))]
+    if do_memfd:
+        jobs += [("memfd_mc", lambda: ctx.tlc("Memfd", timeout=600, count=False)),
+                 ("memfd_gen", lambda: ctx.tlc("Memfd_Gen", timeout=600, count=False))]
+    a = par(jobs)
+    jobs, n = [], 0
+    if do_reset:
+        ctx.tlc_ok("Reset MC (CleanAfterReset over all histories, nested mount table)", a["reset_mc"])
+        ctx.tlc_ok("Reset_Gen", a["reset_gen"])
+        count(ctx, a["reset_mc"])
+        ctx.cov["reset_mc_distinct"] = a["reset_mc"].distinct
+        rd = lambda f: ctx.read_ndjson(os.path.join(a["reset_gen"].dir, f))
+        kindsets, assigns, shapes, configs = rd("kindsets.ndjson"), rd("assigns.ndjson"), rd("shapes.ndjson"), rd("configs.ndjson")
+        if not kindsets or not assigns or not shapes or not configs:
+            raise vlib.Inconclusive("Reset_Gen produced no cases")
+        hist, cover = compose_histories(ctx, kindsets, assigns, shapes, configs, ctx.pick(44, 400))
+        low = lownofile_histories(ctx, kindsets, assigns, configs)
+        ctx.log("reset: %d kind sets x %d assignments x %d shapes x %d configurations enumerated; %d histories (%d covering) + %d under a low descriptor limit" % (
+            len(kindsets), len(assigns), len(shapes), len(configs), len(hist), cover, len(low)))
+        jobs += [("main", lambda: replay_histories(ctx, hist, probe_dir, "main", None)),
+                 ("low", lambda: replay_histories(ctx, low, probe_dir, "lownofile", ["prlimit", "--nofile=4096:4096"]))]
+    if do_memfd:
+        ctx.tlc_ok("Memfd MC (Immutable under all attempt sequences; every seal needed)", a["memfd_mc"])
+        ctx.tlc_ok("Memfd_Gen", a["memfd_gen"])
+        count(ctx, a["memfd_mc"])
+        allc = ctx.read_ndjson(os.path.join(a["memfd_gen"].dir, "memcases.ndjson"))
+        if not allc:
+            raise vlib.Inconclusive("Memfd_Gen produced no cases")
+        cases = memfd_cases(ctx, allc)
+        jobs += [("memfd", lambda: replay_memfd(ctx, cases, probe_dir))]
+    # B. the real code
+    b = par(jobs)
+    # C. TLC validates what was recorded
+    jobs = []
+    if do_reset:
+        allh, alltr = hist + low, b["main"] + b["low"]
+        jobs += [("reset_trace", lambda: ctx.tlc("Reset_Trace", files={"traces.ndjson": alltr}, timeout=900, count=False))]
+    if do_memfd:
+        jobs += [("memfd_trace", lambda: ctx.tlc("Memfd_Trace", files={"memtraces.ndjson": b["memfd"]}, timeout=900, count=False))]
+    c = par(jobs)
+    if do_reset:
+        ctx.tlc_ok("Reset_Trace", c["reset_trace"])
+        count(ctx, c["reset_trace"])
+        judge_histories(ctx, allh, alltr, c["reset_trace"], configs)
+        n += len(alltr)
+    if do_memfd:
+        ctx.tlc_ok("Memfd_Trace", c["memfd_trace"])
+        count(ctx, c["memfd_trace"])
+        judge_memfd(ctx, b["memfd"], c["memfd_trace"])
+        n += len(b["memfd"])
+    ctx.traces = n
     ctx.assumptions += [
         "writable mounts = the tmpfs mounts of the configuration (read-write bind mounts are host directories owned by the caller and are not judged)",
         "strict reading: entries left behind are a breach whether or not Reset returned an error (callers such as pool.Put ignore it)",
         "kernel sealing semantics (mm/memfd.c, mm/shmem.c) as written in MemfdDefs!KernelRes; disagreements are reported as DRIFT",
         "listing through /proc/<init>/root shows the mount namespace of the container init",
     ]
-    return dict(evaluations=n + m, distinct=n + m,
+    return dict(evaluations=n, distinct=n,
                 rule="Reset: covering family (every planted kind x every mount x every configuration) + seeded sample of TLC-enumerated "
-                     "plant sets x shapes; memfd: TLC-enumerated size x pattern x reader x attack rotation, seeded choice per class",
+                     "kind sets x assignments x shapes x configurations; memfd: TLC-enumerated size x pattern x reader x attack rotation, seeded choice per class",
                 exhaustive=False)
